@@ -188,8 +188,12 @@ func (r *Report) finish() int {
 		"assumptions": assumptions, "wall_s": round3(wall), "violations": len(r.violations),
 	}
 	eb, _ := json.MarshalIndent(ev, "", " ")
-	os.MkdirAll(filepath.Join(r.verif, "evidence"), 0o755)
-	os.WriteFile(filepath.Join(r.verif, "evidence", r.ID+".json"), eb, 0o644)
+	evDir := filepath.Join(r.verif, "evidence")
+	if d := os.Getenv("VERIF_EVIDENCE_DIR"); d != "" {
+		evDir = d
+	}
+	os.MkdirAll(evDir, 0o755)
+	os.WriteFile(filepath.Join(evDir, r.ID+".json"), eb, 0o644)
 	fmt.Printf("%s %s: %d/%d obligations discharged, %d functions, %d vacuity checks, %.1fs (load %.1fs)\n", r.ID, r.Tier, discharged, total, len(r.Funcs), vacuity, wall, r.loadS)
 	if total == 0 && exit == 0 {
 		fmt.Printf("VIOLATION property=%s replay=%s no obligations generated no-failing-input-found\n", r.ID, replayDir)
